@@ -659,6 +659,15 @@ fn builtin() -> Vec<Scenario> {
     // the first free releases a whole row, which a stale split attempt of the second one can fill again
     add("split-put6-put0", true, 1, vec![], vec![vec![Put(0, 6)], vec![Put(64, 0)]]);
     add("split-put0-get0", true, 1, vec![], vec![vec![Put(5, 0)], vec![Get(0, 0)]]);
+    // the split of a huge block of TREE 1 (child 0) while huge frame 0 of tree 0 (same child index) holds small blocks:
+    // a crash inside the split window must not touch tree 0 (recovery repairs the bitfield of the marker entry)
+    add(
+        "split-put0-tree1",
+        false,
+        2,
+        vec![GetAt(0, 0), GetAt(1, 0), GetAt(64, 3), GetAt(tf, ho)],
+        vec![vec![Put(tf + 5, 0)], vec![Get(0, 0)]],
+    );
     // --- put order 9 vs get order 9
     add("put9-get9", false, 1, vec![Get(0, ho)], vec![vec![Put(0, ho)], vec![Get(0, ho)]]);
     add("put9-getat9", true, 1, vec![], vec![vec![Put(0, ho)], vec![GetAt(0, ho)]]);
@@ -667,6 +676,13 @@ fn builtin() -> Vec<Scenario> {
     add("getT-getT", false, 1, vec![], vec![vec![Get(0, to)], vec![Get(0, to)]]);
     add("getT-getT-2trees", false, 2, vec![], vec![vec![Get(0, to)], vec![Get(tf / 64, to)]]);
     if TREE_HUGE >= 2 {
+        add(
+            "split-put0-tree1-child1",
+            false,
+            2,
+            vec![GetAt(hf + 3, 0), GetAt(hf + 128, 6), GetAt(tf + hf, ho)],
+            vec![vec![Put(tf + hf + 5, 0)], vec![Put(tf + hf + 64, 0)]],
+        );
         // the tree-order get fails on entry 1 and undoes entry 0
         add("getT-get9h1", false, 1, vec![], vec![vec![Get(0, to)], vec![Get(rows_h, ho)]]);
         add("getT-get0h1", false, 1, vec![], vec![vec![Get(0, to)], vec![Get(rows_h, 0)]]);
@@ -1077,6 +1093,30 @@ fn builtin_upper() -> Vec<Scenario> {
         pre.push(g(0, 0, Some(0)));
         add("u-frag-get9-local", s1(), false, 2, pre, vec![vec![g(ho, 0, Some(0))], vec![g(0, 0, Some(0))]]);
     }
+    // the split of a huge block of tree 1 while huge frame 0 of tree 0 holds small blocks (crash snapshots: recovery must
+    // repair the bitfield of the marker entry, not the one with the same child index in tree 0)
+    add(
+        "u-split-put0-tree1",
+        s1(),
+        false,
+        2,
+        vec![ga(0, 0, 0, None), ga(1, 0, 0, None), ga(64, 3, 0, None), ga(tf, ho, 1, None)],
+        vec![vec![pp(3, 5, 0, 1, None)], vec![g(0, 0, Some(0))]],
+    );
+    if TREE_HUGE >= 2 {
+        add(
+            "u-split-put0-tree1-child1",
+            s1(),
+            false,
+            2,
+            vec![ga(HUGE_FRAMES + 3, 0, 0, None), ga(tf + HUGE_FRAMES, ho, 1, None)],
+            vec![vec![pp(1, 5, 0, 1, None)], vec![pp(1, 64, 0, 1, None)]],
+        );
+    }
+    // custom policy (class pairs 0/2 unusable): a slot-less class-2 get steals from the class-1 tree (it keeps class 1), a
+    // slot-less class-0 get demotes the same tree to class 0: the class the class-2 get reports must be the one it installed
+    add("u-custom-steal-demote", cu(), false, 1, vec![], vec![vec![g(0, 2, None)], vec![g(0, 0, None)]]);
+    add("u-custom-steal-demote-2trees", cu(), false, 2, vec![], vec![vec![g(0, 2, None), g(0, 2, None)], vec![g(0, 0, None)]]);
     // --- other classings
     add("u-mov-get-get", mv(), false, 3, vec![], vec![vec![g(0, 0, Some(0))], vec![g(0, 1, Some(0))]]);
     add("u-mov-get9-get0", mv(), false, 3, vec![g(0, 1, Some(0))], vec![vec![g(ho, 2, Some(0))], vec![g(0, 0, Some(0))]]);
